@@ -57,6 +57,7 @@ type Violation struct {
 	Vector  []VecEntry `json:"vector"`
 	Path    []int      `json:"path"`
 	Note    string     `json:"note,omitempty"`
+	Sched   bool       `json:"schedule_dependent,omitempty"`
 }
 
 type Worker struct {
@@ -101,6 +102,7 @@ type HarnessResult struct {
 	Name         string
 	Paths        int            // completed (harness returned, PC satisfiable or not checked)
 	Infeasible   int            // paths cut by infeasible branch/assume
+	Redundant    int            // schedules pruned as non-canonical linearisations (partial-order reduction)
 	Decisions    int64          // symbolic branch decisions taken
 	Asserts      int64          // assertion obligations discharged by solver (unsat)
 	TrivAsserts  int64          // assertions that folded to true
@@ -141,6 +143,7 @@ func newResult(name string) *HarnessResult {
 func (r *HarnessResult) merge(o *HarnessResult) {
 	r.Paths += o.Paths
 	r.Infeasible += o.Infeasible
+	r.Redundant += o.Redundant
 	r.Decisions += o.Decisions
 	r.Asserts += o.Asserts
 	r.TrivAsserts += o.TrivAsserts
@@ -640,8 +643,14 @@ func (w *Worker) modelVectorChecked() []VecEntry {
 func (w *Worker) recordViolation(kind, label string, pos token.Pos, vec []VecEntry, note string) {
 	w.res.ViolCount[label]++
 	if w.res.ViolCount[label] <= 3 {
+		sched := false
+		for _, nd := range w.nodes {
+			if strings.HasPrefix(nd.kind, "sched:") || nd.kind == "select" {
+				sched = true
+			}
+		}
 		w.res.Violations = append(w.res.Violations, Violation{
-			Harness: w.h.Name, Label: label, Kind: kind, Pos: w.posStr(pos), Vector: vec, Path: w.pathChoices(), Note: note})
+			Harness: w.h.Name, Label: label, Kind: kind, Pos: w.posStr(pos), Vector: vec, Path: w.pathChoices(), Note: note, Sched: sched})
 	}
 }
 
@@ -759,7 +768,7 @@ func (w *Worker) runPath() {
 				w.res.BoundHits[r.msg]++
 			case "abort":
 				w.res.Unsupported["ABORT: "+r.msg]++
-			case "violation":
+			case "violation", "redundant":
 			}
 		case targetPanic:
 			// uncaught Go panic in target code: violation if the path is feasible
